@@ -123,7 +123,7 @@ func (vc *VC) ghostInit(name string) string {
 	n := "g0_" + sanitize(name)
 	if !vc.declared[n] {
 		vc.declared[n] = true
-		vc.cmd(fmt.Sprintf("(declare-const %s Int)", n))
+		vc.decls = append(vc.decls, fmt.Sprintf("(declare-const %s Int)", n))
 	}
 	return n
 }
